@@ -168,6 +168,8 @@ def run(ctx):
     from .c09 import per_instance_state, record_completeness
     per_instance_state(ctx, 'C15.R4')
     record_completeness(ctx, 'C15.R4')
+    from .c17 import trash as _trash
+    _trash(ctx, 'C15.R4')       # the outflow of a remove step is what the step recorded as discarded
     # the record of one step is not built inside the memoised result of an observer: a later recipe that starts from
     # an equal container would be handed the changed set
     from .c10 import cached_results_intact
